@@ -289,6 +289,21 @@ func genModelFontOpt(rng *rand.Rand, nested bool) *modelFont {
 	infoStr("FullName", &want.FontInfo.FullName)
 	infoStr("FamilyName", &want.FontInfo.FamilyName)
 	infoStr("Weight", &want.FontInfo.Weight)
+	// respell writes a real the way other font tools do: .5 for 0.5, -.5, 12. for 12.0, a leading +
+	respell := func(t string) string {
+		switch {
+		case strings.HasPrefix(t, "0.") && rng.IntN(2) == 0:
+			t = t[1:]
+		case strings.HasPrefix(t, "-0.") && rng.IntN(2) == 0:
+			t = "-" + t[2:]
+		case strings.HasSuffix(t, ".0") && rng.IntN(3) == 0:
+			t = t[:len(t)-1]
+		}
+		if !strings.HasPrefix(t, "-") && rng.IntN(8) == 0 {
+			t = "+" + t
+		}
+		return t
+	}
 	num := func() (string, float64) {
 		switch rng.IntN(4) {
 		case 0:
@@ -296,10 +311,10 @@ func genModelFontOpt(rng *rand.Rand, nested bool) *modelFont {
 			return strconv.Itoa(v), float64(v)
 		case 1:
 			v := float64(rng.IntN(200001)-100000) / 100
-			return ref.RenderReal(v), v
+			return respell(ref.RenderReal(v)), v
 		default:
 			v := float64(rng.IntN(401)-200) / 4
-			return ref.RenderReal(v), v
+			return respell(ref.RenderReal(v)), v
 		}
 	}
 	if rng.IntN(4) > 0 {
@@ -336,6 +351,10 @@ func genModelFontOpt(rng *rand.Rand, nested bool) *modelFont {
 	case 0:
 	case 1:
 		w.FontMatrix = []string{"0.001", "0", "0", "0.001", "0", "0"}
+		if rng.IntN(2) == 0 {
+			w.FontMatrix = []string{".001", "0", "0", ".001", "0", "0"} // the spelling Adobe's own tools use
+			mf.feat["reals spelled with a leading point"] = true
+		}
 	case 2:
 		w.FontMatrix = []string{"0.0005", "0", "0.0001", "0.0005", "10", "-20"}
 		want.FontInfo.FontMatrix = matrix.Matrix{0.0005, 0, 0.0001, 0.0005, 10, -20}
@@ -424,6 +443,11 @@ func genModelFontOpt(rng *rand.Rand, nested bool) *modelFont {
 		name := stdNames[rng.IntN(len(stdNames))]
 		if rng.IntN(5) == 0 || big && i > 100 {
 			name = fmt.Sprintf("glyph%d", i)
+		}
+		if rng.IntN(12) == 0 {
+			// a name spelled with multi-byte UTF-8 sequences (all bytes are regular characters)
+			name = string([]rune{[]rune{0x0120, 0x0100, 0x4E00, 0x212F, 0x3000, 0x0128, 0x00E9, 0x1F600}[rng.IntN(8)], rune(0x100 + rng.IntN(0x3000))}) + strconv.Itoa(i)
+			mf.feat["glyph name in UTF-8"] = true
 		}
 		if used[name] {
 			continue
@@ -662,6 +686,25 @@ func runC06(r *rt.Runner) {
 			}
 			if d := compareFonts(mf.want, f, fontTol{coord: 1e-9, skipStems: mf.skipStems, inexact: mf.ratSB}); len(d) > 0 {
 				c.Violation("content|"+diffKind(d[0]), "the font read differs from the font the file describes:\n  "+joinLines(d), "")
+			}
+			// the font belongs to the caller: write into everything it holds (a
+			// later Read in this process must not see any of it, and the shared
+			// standard encoding table must stay as it is - see the canary)
+			for i := range f.Encoding {
+				f.Encoding[i] = "scribbled"
+			}
+			for _, g := range f.Glyphs {
+				for _, cmd := range g.Cmds {
+					for i := range cmd.Args {
+						cmd.Args[i] += 1e6
+					}
+				}
+				for i := range g.HStem {
+					g.HStem[i] = -g.HStem[i] - 1
+				}
+				for i := range g.VStem {
+					g.VStem[i] = -g.VStem[i] - 1
+				}
 			}
 			c.Count("container " + mf.lay.Container)
 			c.Count(fmt.Sprintf("lenIV %d", mf.lay.LenIV))
